@@ -379,10 +379,11 @@ def _adequacy(which: str, code: int, rtl: bool) -> bool:
 D = int(os.environ.get("VERIF_D", "3"))          # tree codes are D hexadecimal digits (one big symbolic int would make
 RTL = os.environ.get("VERIF_RTL", "0") == "1"    # CrossHair's decision tree a chain; digits keep it shallow)
 TOP = int(os.environ.get("VERIF_TOP", "16"))     # the most significant digit is below TOP
+TOPEQ = int(os.environ.get("VERIF_TOPEQ", "-1"))  # ... or exactly this (class conditions: the slice known to contain a witness)
 
 
 def _ok_digits(v: List[int]) -> bool:
-    if len(v) != D or not all(0 <= x < 16 for x in v) or v[D - 1] >= TOP:
+    if len(v) != D or not all(0 <= x < 16 for x in v) or v[D - 1] >= TOP or (TOPEQ >= 0 and v[D - 1] != TOPEQ):
         return False
     if PART:
         k, m = PART.split("/")
@@ -482,6 +483,7 @@ def _adequacy_xml_ns(v) -> bool:
 
 XML_SLOTS = [int(x) for x in os.environ.get("VERIF_XML_SLOTS", "1,1").split(",")]     # attribute slots used on the outer / inner element
 XML_CLOSE = [int(x) for x in os.environ.get("VERIF_XML_CLOSE", "0,1,2,3").split(",")]
+XML_INNER_ATTRS = [int(x) for x in os.environ.get("VERIF_XML_INNER_ATTRS", "").split(",") if x]
 
 
 def _ok_xml(v: List[int]) -> bool:
@@ -502,7 +504,7 @@ def _ok_xml(v: List[int]) -> bool:
 
 def _adequacy_xml_all(v) -> bool:
     n = 0
-    for b1 in range(len(XML_ATTR)):
+    for b1 in (XML_INNER_ATTRS or range(len(XML_ATTR))):
         for b2 in (range(len(XML_ATTR)) if XML_SLOTS[1] > 1 else (0,)):
             for close in XML_CLOSE:
                 try:
